@@ -4,7 +4,7 @@ import ast
 from ..astutil import (AnalysisError, dotted, calls_in, last_attr, receiver, norm, is_name, walk_local, is_self_attr,
                        loc, short, parent_map)
 from ..cfg import is_flow, path_str
-from .c07 import pool_parts, call_nodes, pool_names, check_enqueue_callers, check_single_append
+from .c07 import pool_parts, call_nodes, pool_names, check_enqueue_callers, check_single_append, check_redistribution
 
 EXPLANATION = (
     'Static decision of the failure reporting of Pool.run. R1: the only `raise PoolError` of run is dominated by `not ok`, '
@@ -107,6 +107,7 @@ def run(ctx):
     ctx.check('R2', 'the result list starts empty in every run', ok, 'Pool.run', 'result-list-init', 'the result list is not a fresh empty list per run', where=loc(run_f, run_f.node))
 
     check_enqueue_callers(ctx, pool, run_f, cl, rule='R3')
+    check_redistribution(ctx, cl, 'R1')
     # ---------------------------------------------------------------- R3 hand-over needs death evidence
     gt = ctx.an.cfg(te, pool)
     domt = gt.dominators(edge_ok=is_flow)
